@@ -83,7 +83,11 @@ class StlPastifier(LtlPastifier, StlAstVisitor):
         out = StlAstVisitor.visit(self, node, *args, **kwargs)
         d = self.ast.phi_name_to_node_dict
         keys = [k for k, v in d.items() if v == node]
-        self.ast.phi_name_to_node_dict.update({key: out for key in keys})
+        named = out
+        if isinstance(node, Variable) and isinstance(out, TimedOnce):
+            # the name of a delayed input keeps denoting the input, not its delayed copy
+            named = out.children[0]
+        self.ast.phi_name_to_node_dict.update({key: named for key in keys})
         return out
 
     def visitVariable(self, node, *args, **kwargs):
